@@ -409,7 +409,7 @@ class Prog:
                 "sample": {"ops": self.case["ops"][:2], "live": self.case["live"]}}
 
 
-C20.rule = ("balanced histories (<=14/30 operations, nesting <=4) over push_theme/pop_theme (in try/finally), use_theme blocks, get_style, refused pops of the "
+C20.rule = ("balanced histories (<=14/30 operations, nesting <=4) over push_theme/pop_theme (in try/finally), use_theme blocks (15% entering the same context object twice), get_style, refused pops of the "
             "base theme and injected exceptions caught at seeded outer levels; 25% wrapped in a Live block; after every step every name of a 12-name "
             "universe is looked up and compared with the reference model; non-trivial = more than two full look-up rounds; distinct = distinct cases")
 C20.components_real = ["rich.theme (Theme, ThemeStack, from_file, config)", "rich.console (get_style, push/pop/use_theme)", "rich.style", "rich.live (wrapped variant)"]
